@@ -664,6 +664,82 @@ LAZY_MEMBERS = (
 )
 
 
+def _run_lazy_member(f, slot: str, ctor: str, filled: bool):
+    """-> worst (returned value, slot value at exit, number of constructor calls) over the paths for one entry
+    state of the slot; tests that are not about the slot being None are explored both ways."""
+    outcomes = []
+
+    def ev(e, st, env):
+        if isinstance(e, ast.NamedExpr):
+            v = ev(e.value, st, env)
+            env[e.target.id] = v
+            return v
+        if norm(e) == f"self.{slot}":
+            return st["slot"]
+        if isinstance(e, ast.Call) and norm(e.func) == f"self.{ctor}" and not e.args and not e.keywords:
+            st["calls"] += 1
+            return "CTOR"
+        if isinstance(e, ast.Name) and e.id in env:
+            return env[e.id]
+        if isinstance(e, ast.Constant) and e.value is None:
+            return None
+        return norm(e)[:60]
+
+    def truth(t, st, env):
+        """True / False, or None when the test does not decide on the slot"""
+        if isinstance(t, ast.UnaryOp) and isinstance(t.op, ast.Not):
+            v = truth(t.operand, st, env)
+            return None if v is None else not v
+        if isinstance(t, ast.Compare) and len(t.ops) == 1 and isinstance(t.comparators[0], ast.Constant) and t.comparators[0].value is None and isinstance(t.ops[0], (ast.Is, ast.IsNot, ast.Eq, ast.NotEq)):
+            v = ev(t.left, st, env)
+            if v is not None and v not in ("SLOT0", "CTOR"):
+                return None
+            is_none = v is None
+            return is_none if isinstance(t.ops[0], (ast.Is, ast.Eq)) else not is_none
+        return None
+
+    def run(stmts, st, env, depth=0):
+        """runs the statements; appends to outcomes on return; returns True if fell through"""
+        if depth > 12:
+            raise AnalysisError("lazy member too deeply nested")
+        for k_, s_ in enumerate(stmts):
+            if isinstance(s_, ast.Expr) and isinstance(s_.value, ast.Constant):
+                continue
+            if isinstance(s_, ast.Return):
+                outcomes.append((ev(s_.value, st, env) if s_.value is not None else None, st["slot"], st["calls"]))
+                return False
+            if isinstance(s_, ast.If):
+                tv = truth(s_.test, st, env)
+                arms = [s_.body if tv else s_.orelse] if tv is not None else [s_.body, s_.orelse]
+                fell = False
+                for arm in arms:
+                    st2, env2 = dict(st), dict(env)
+                    if run(list(arm) + list(stmts[k_ + 1 :]), st2, env2, depth + 1):
+                        fell = True
+                        st.update(st2)
+                        env.update(env2)
+                return fell
+            if isinstance(s_, ast.Assign):
+                v = ev(s_.value, st, env)
+                for t in s_.targets:
+                    if norm(t) == f"self.{slot}":
+                        st["slot"] = v
+                    elif isinstance(t, ast.Name):
+                        env[t.id] = v
+                    else:
+                        raise AnalysisError(f"store outside the lazy-member grammar: {norm(t)[:40]}")
+                continue
+            raise AnalysisError(f"statement outside the lazy-member grammar: {norm(s_)[:50]}")
+        return True
+
+    st0 = {"slot": "SLOT0" if filled else None, "calls": 0}
+    if run(f.body_without_docstring(), st0, {}):
+        outcomes.append((None, st0["slot"], st0["calls"]))
+    good = ("SLOT0", "SLOT0", 0) if filled else ("CTOR", "CTOR", 1)
+    bad = [o for o in outcomes if o != good]
+    return bad[0] if bad else good
+
+
 def rule_lazy_members(rep, program: Program, prop=PROP, rule="R9", only=None):
     """The algebraic obligations are decided for the _construct_* methods; the public lazily filled
     members must deliver exactly those values: the slot is filled only with self._construct_*() and
@@ -677,16 +753,27 @@ def rule_lazy_members(rep, program: Program, prop=PROP, rule="R9", only=None):
         if f is None:
             raise AnalysisError(f"{cls}.{member} not found")
         stores = [n for n in ast.walk(f.node) if isinstance(n, ast.Assign) and any(norm(t) == f"self.{slot}" for t in n.targets)]
-        rets = [n for n in ast.walk(f.node) if isinstance(n, ast.Return) and n.value is not None]
-        r.inst({"member": f"{cls}.{member}", "slot stores": [norm(n.value)[:50] for n in stores], "returns": [norm(n.value)[:40] for n in rets]})
         if not stores:
             raise AnalysisError(f"{cls}.{member}: no store to self.{slot}")
-        for n in stores:
-            if norm(n.value) != f"self.{ctor}()":
-                r.violate(prop, f"{cls}.{member}:slot-source:{norm(n.value)[:50]}", f"{cls}.{member} fills self.{slot} with `{norm(n.value)[:60]}` instead of self.{ctor}(): the value is not the one whose defining identity is established for the class (e.g. a factor taken from another object's cache needs the transpose / inverse conventions of that object, not of this one)", node=n, file=f.file)
-        for n in rets:
-            if norm(n.value) != f"self.{slot}":
-                r.violate(prop, f"{cls}.{member}:returns:{norm(n.value)[:40]}", f"{cls}.{member} returns `{norm(n.value)[:50]}`, not the slot it fills", node=n, file=f.file)
+        # the member is interpreted for both entry states of the slot (filled / still None): values are tracked as
+        # SLOT0 (what the slot held at entry), CTOR (a fresh self._construct_*()), or the text of anything else
+        verdicts = {}
+        for filled in (True, False):
+            try:
+                verdicts[filled] = _run_lazy_member(f, slot, ctor, filled)
+            except AnalysisError as e:
+                raise AnalysisError(f"{cls}.{member}: {e}") from e
+        r.inst({"member": f"{cls}.{member}", "slot filled at entry": verdicts[True], "slot empty at entry": verdicts[False]})
+        ret_f, slot_f, calls_f = verdicts[True]
+        ret_e, slot_e, calls_e = verdicts[False]
+        if slot_f != "SLOT0" or calls_f:
+            r.violate(prop, f"{cls}.{member}:refills:{slot_f}", f"{cls}.{member} overwrites / recomputes self.{slot} although it is already filled (the slot ends as `{slot_f}`, {calls_f} constructor call(s))", node=f.node, file=f.file)
+        if ret_f != "SLOT0":
+            r.violate(prop, f"{cls}.{member}:returns:{ret_f}", f"{cls}.{member} returns `{ret_f}`, not the slot it fills", node=f.node, file=f.file)
+        if slot_e != "CTOR":
+            r.violate(prop, f"{cls}.{member}:slot-source:{slot_e}", f"{cls}.{member} fills self.{slot} with `{slot_e}` instead of self.{ctor}(): the value is not the one whose defining identity is established for the class (e.g. a factor taken from another object's cache needs the transpose / inverse conventions of that object, not of this one)", node=stores[0], file=f.file)
+        if ret_e != slot_e or calls_e != 1:
+            r.violate(prop, f"{cls}.{member}:returns:{ret_e}", f"{cls}.{member} returns `{ret_e}` on first use while the slot holds `{slot_e}` ({calls_e} constructor call(s)): the member does not return the slot it fills", node=f.node, file=f.file)
         # overriding classes must not replace the member (their _construct_* is what is analysed)
         for sub in program.subclasses(cls):
             if sub is not k and member in sub.methods and sub.methods[member] is not f:
